@@ -13,14 +13,14 @@ var verifTolerances = []float64{2.0, 1.0, 1.5}
 // interval, smoothing and tolerance from the stated constant lists, default sqrt queue function),
 // then an arbitrary state under the invariant
 //   minLimit <= est <= max(maxLimit, initial)*(1+2^-40), 1 <= counter < 2*interval (if enabled), baseline >= 0.
-func verifGradientState() (l *GradientLimit, hi int) {
+func verifGradientState(smallRTT bool) (l *GradientLimit, hi int) {
 	initial := verif.Int("initial")
 	minL := verif.Int("min")
 	maxC := verif.Int("max")
 	verif.Assume(minL >= 1 && minL <= initial && minL <= maxC)
 	verif.Assume(initial < 1<<31 && maxC < 1<<31)
 	verif.Assume(maxC >= 4) // queue allowance (default: max(4, sqrt(limit))) <= max
-	smoothing := verifSmoothings[verif.Choice("smoothing", verif.Tiered(2, len(verifSmoothings)))]
+	smoothing := verifSmoothings[verif.Choice("smoothing", verif.Tiered(verifQuickSmooth, len(verifSmoothings)))]
 	tol := verifTolerances[verif.Choice("tolerance", verif.Tiered(1, len(verifTolerances)))]
 	interval := ProbeDisabled
 	if verif.Choice("probing", 2) == 1 {
@@ -42,6 +42,7 @@ func verifGradientState() (l *GradientLimit, hi int) {
 	}
 	base := verif.Int64("baseline")
 	verif.Assume(base >= 0 && base <= 1<<62)
+	verif.Assume(!smallRTT || base <= 1<<53)
 	l.rttNoLoadMeasurement = measurements.VerifMinimum(float64(base))
 	return l, hi
 }
@@ -51,7 +52,7 @@ func verifGradientState() (l *GradientLimit, hi int) {
 //
 //verif:harness property=C04 theory=real tier=quick timeout=120
 func VerifC04_Gradient_Step() {
-	l, hi := verifGradientState()
+	l, hi := verifGradientState(false)
 	rtt := verif.Int64("rtt")
 	inflight := verif.Int("inflight")
 	verif.Assume(rtt >= 0 && rtt <= 1<<62 && inflight >= 0 && inflight < 1<<31)
